@@ -54,22 +54,41 @@ def build_hashmap(mapping, n, value_bits):
 
 
 def parse_label(bits, pos, m):
-    """Returns (label, new_pos) reading any of the three label kinds."""
+    """Returns (label, new_pos) reading any of the three label kinds.  Strict: a label longer than the remaining
+    key length m, or running past the end of the cell's bits, raises ValueError."""
     k = m.bit_length()
+
+    def need(end):
+        if end > len(bits):
+            raise ValueError('label runs past the end of the cell')
+    need(pos + 1)
     if bits[pos] == '0':
         pos += 1
         n = 0
+        need(pos + 1)
         while bits[pos] == '1':
             n += 1
             pos += 1
+            need(pos + 1)
         pos += 1
+        if n > m:
+            raise ValueError('label longer than key')
+        need(pos + n)
         return bits[pos:pos + n], pos + n
+    need(pos + 2)
     if bits[pos + 1] == '0':
+        need(pos + 2 + k)
         n = int(bits[pos + 2:pos + 2 + k], 2) if k else 0
         pos += 2 + k
+        if n > m:
+            raise ValueError('label longer than key')
+        need(pos + n)
         return bits[pos:pos + n], pos + n
+    need(pos + 3 + k)
     v = bits[pos + 2]
     n = int(bits[pos + 3:pos + 3 + k], 2) if k else 0
+    if n > m:
+        raise ValueError('label longer than key')
     return v * n, pos + 3 + k
 
 
@@ -85,6 +104,8 @@ def parse_hashmap(cell, n, prefix='', out=None):
     if m == 0:
         out[prefix] = (cell.bits[pos:], cell.refs)
     else:
+        if len(cell.refs) < 2:
+            raise ValueError('fork without two references')
         parse_hashmap(cell.refs[0], m - 1, prefix + '0', out)
         parse_hashmap(cell.refs[1], m - 1, prefix + '1', out)
     return out
